@@ -299,10 +299,23 @@ func runQuotaAdv(ctx *core.RunCtx) {
 		ctx.Fail(prop, prop+".K6", "slow:"+sig, "took %v of wall time under cpu limit %d; %s", wall, cpuL, where)
 		return
 	}
-	maxAlloc := 16*memL + 96<<20
+	// cumulative allocation may legitimately grow with the CPU budget (garbage churn of a loop that is
+	// charged CPU), the heap obtained from the OS may not grow beyond a multiple of M
+	maxAlloc := 16*memL + 96<<20 + 600*cpuL
 	if alloc > maxAlloc {
-		ctx.Fail(prop, prop+".M3", "heap:"+sig, "allocated %d bytes of Go heap under memory limit %d (bound %d); %s", alloc, memL, maxAlloc, where)
+		ctx.Fail(prop, prop+".M3", "heap:"+sig, "allocated %d bytes of Go heap under memory limit %d and cpu limit %d (bound %d); %s", alloc, memL, cpuL, maxAlloc, where)
 		return
+	}
+	grown := uint64(0)
+	if ms1.HeapSys > ms0.HeapSys {
+		grown = ms1.HeapSys - ms0.HeapSys
+	}
+	if maxSys := 16*memL + 128<<20; grown > maxSys {
+		ctx.Fail(prop, prop+".M3", "heap-growth:"+sig, "the Go heap of the process grew by %d bytes under memory limit %d (bound %d); %s", grown, memL, maxSys, where)
+		return
+	}
+	if grown > 64<<20 {
+		ctx.Count("probe.runs growing the process heap by over 64MiB", 1)
 	}
 	if wall > 200*time.Millisecond {
 		ctx.Count("probe.runs over 200ms", 1)
